@@ -185,7 +185,7 @@ def invert(x, m):
       q = e.fresh('inv_q')
       am = z3.If(mt >= 0, mt, -mt)
       e.assume(z3.And(w >= 0, w < am, w * xt == 1 + q * mt))
-      return (w, xt, mt)
+      return (w, xt, mt, q)
 
     w = _memo(_key('invert', xt, mt), make)[0]
     return SInt(w)
